@@ -635,10 +635,39 @@ pub fn run_exhaustive(
         return C17Outcome { violation: None };
     }
     let mut vr = Rng::sub(wl.reader.run_seed, 4);
-    let n = base.events.len();
+    // One generated workload in eight is enumerated under a *legally misbehaving* reader:
+    // the fault placements are then the I/O calls of that reader's fault-free run (several
+    // per range), so every single fault is also met in the middle of a chopped-up transfer.
+    let mut wl = wl;
+    let mut enum_events = base.events.clone();
+    if wl.mode == "single-fault" && run % 8 < 2 {
+        let profile = if run % 8 == 0 {
+            Profile { short_p: 128, short_max: 24, eintr_p: 0 }
+        } else {
+            Profile { short_p: 64, short_max: 9, eintr_p: 40 }
+        };
+        let mut twin_sc = profile_twin_of(&wl);
+        twin_sc.reader.profile = profile;
+        let twin = execute(&twin_sc);
+        rep.evaluations += 1;
+        let same = twin.steps.len() == base.steps.len()
+            && twin.steps.iter().zip(base.steps.iter()).all(|(a, b)| a.out == b.out);
+        if !same {
+            rep.add("inconclusive_profile_sensitive", 1);
+            return C17Outcome { violation: None };
+        }
+        if twin.events.len() <= 400 && twin.total_events as usize == twin.events.len() {
+            wl.reader.profile = profile;
+            wl.reader.clean_after_failure = true;
+            wl.mode = "single-fault/chopped".into();
+            enum_events = twin.events.clone();
+            rep.add("workloads_enumerated_under_short_reads", 1);
+        }
+    }
+    let n = enum_events.len();
     rep.add("baseline_io_events", n as u64);
     let mut first_sample = true;
-    for ev in base.events.iter() {
+    for ev in enum_events.iter() {
         crate::sup::heartbeat(run);
         for (fault, heal) in variants_for(ev.kind, &mut vr) {
             let mut sc = wl.clone();
@@ -663,7 +692,7 @@ pub fn run_exhaustive(
         }
     }
     rep.add("single_fault_placements_exhausted", 1);
-    if pairs && n <= 40 && n >= 2 {
+    if pairs && wl.mode != "single-fault/chopped" && n <= 40 && n >= 2 {
         for i in 0..n {
             crate::sup::heartbeat(run);
             for j in (i + 1)..n {
